@@ -667,6 +667,11 @@ func r9_2(c *Ctx, enc *ssa.Function, alphabet string, alphaIdx *ssa.Index) {
 		}
 		c.check(linked, "digit loop starts from the sign-converted value", posOf(and, enc), "the masked value is the converted n on entry and the shifted remainder afterwards", "the digit loop does not run over the sign-converted value (the sign bit is lost or the raw value is encoded)")
 	}
+	if !signOK && and != nil && signFn == enc {
+		// folded: for sample values of n the code in front of the digit loop is evaluated as constants; the value that
+		// enters the loop in the masked variable must be (|n| << 1) | sign
+		signOK = signConversionFolds(enc, and)
+	}
 	c.check(signOK, "sign in the least significant bit", posOf(or1, enc), "(−n << 1) | 1 for negative n, n << 1 otherwise", "the sign is not encoded as the least significant bit of the first group ((-n<<1)|1 for n<0, n<<1 otherwise)")
 	// termination: loop exits when the remainder is zero
 	termOK := false
@@ -948,7 +953,7 @@ func r9_3(c *Ctx) {
 		allInstrs(add, func(_ *ssa.BasicBlock, _ int, in ssa.Instruction) {
 			if ret, ok := in.(*ssa.Return); ok && len(ret.Results) == 1 {
 				if result != nil && result != ret.Results[0] {
-					vals = append(vals, ret.Results[0])
+					vals = append(vals, result) // an earlier return with another value (early return on a hit)
 				}
 				result = ret.Results[0]
 			}
@@ -1425,4 +1430,140 @@ func loopsBackTo(b, target, avoid *ssa.BasicBlock) bool {
 		work = append(work, x.Succs...)
 	}
 	return false
+}
+
+// signConversionFolds evaluates the straight-line / branching prefix of the encoder up to its first loop for a few
+// values of n and reads the value each header phi receives from outside the loop. The phi the digit mask reads must
+// start as (|n| << 1) | (1 if n < 0).
+func signConversionFolds(enc *ssa.Function, and *ssa.BinOp) bool {
+	h := loopHeader(enc)
+	if h == nil || len(enc.Params) != 1 {
+		return false
+	}
+	// the header phis the masked value derives from
+	target := map[*ssa.Phi]bool{}
+	seen := map[ssa.Value]bool{}
+	var walk func(v ssa.Value)
+	walk = func(v ssa.Value) {
+		if v == nil || seen[v] {
+			return
+		}
+		seen[v] = true
+		switch x := v.(type) {
+		case *ssa.Phi:
+			if x.Block() == h {
+				target[x] = true
+				return
+			}
+			for _, e := range x.Edges {
+				walk(e)
+			}
+		case *ssa.BinOp:
+			walk(x.X)
+		case *ssa.Convert:
+			walk(x.X)
+		}
+	}
+	walk(and.X)
+	if len(target) != 1 {
+		return false
+	}
+	for _, n := range []int64{0, 1, -1, 2, -2, 15, -16, 31, -31, 1000, -1000, 123456, -123456} {
+		env := map[ssa.Value]constant.Value{enc.Params[0]: constant.MakeInt64(n)}
+		get := func(v ssa.Value) (constant.Value, bool) {
+			if k, ok := v.(*ssa.Const); ok {
+				if k.Value == nil {
+					return nil, false
+				}
+				return k.Value, true
+			}
+			cv, ok := env[v]
+			return cv, ok
+		}
+		blk := enc.Blocks[0]
+		var prev *ssa.BasicBlock
+		steps := 0
+		for blk != h {
+			steps++
+			if steps > 200 {
+				return false
+			}
+			var next *ssa.BasicBlock
+			for _, in := range blk.Instrs {
+				switch x := in.(type) {
+				case *ssa.DebugRef:
+				case *ssa.Phi:
+					for i, p := range blk.Preds {
+						if p == prev {
+							if cv, ok := get(x.Edges[i]); ok {
+								env[x] = cv
+							}
+						}
+					}
+				case *ssa.BinOp:
+					a, ok1 := get(x.X)
+					b, ok2 := get(x.Y)
+					if !ok1 || !ok2 {
+						continue
+					}
+					switch x.Op {
+					case token.EQL, token.NEQ, token.LSS, token.LEQ, token.GTR, token.GEQ:
+						env[x] = constant.MakeBool(constant.Compare(constant.ToInt(a), x.Op, constant.ToInt(b)))
+					case token.SHL, token.SHR:
+						sh, _ := constant.Uint64Val(constant.ToInt(b))
+						env[x] = constant.Shift(constant.ToInt(a), x.Op, uint(sh))
+					case token.ADD, token.SUB, token.MUL, token.OR, token.AND, token.XOR:
+						env[x] = constant.BinaryOp(constant.ToInt(a), x.Op, constant.ToInt(b))
+					}
+				case *ssa.UnOp:
+					if a, ok := get(x.X); ok && x.Op == token.SUB {
+						env[x] = constant.UnaryOp(token.SUB, constant.ToInt(a), 0)
+					}
+				case *ssa.Convert:
+					if a, ok := get(x.X); ok {
+						env[x] = a
+					}
+				case *ssa.If:
+					cv, ok := get(x.Cond)
+					if !ok || cv.Kind() != constant.Bool {
+						return false
+					}
+					if constant.BoolVal(cv) {
+						next = blk.Succs[0]
+					} else {
+						next = blk.Succs[1]
+					}
+				case *ssa.Jump:
+					next = blk.Succs[0]
+				case *ssa.Return:
+					return false // returns before the loop for this value: not the shape this fold reads
+				}
+			}
+			if next == nil {
+				return false
+			}
+			prev, blk = blk, next
+		}
+		for phi := range target {
+			var got constant.Value
+			for i, p := range h.Preds {
+				if p == prev {
+					got, _ = get(phi.Edges[i])
+				}
+			}
+			if got == nil {
+				return false
+			}
+			abs := n
+			sign := int64(0)
+			if n < 0 {
+				abs, sign = -n, 1
+			}
+			want := constant.MakeInt64(abs<<1 | sign)
+			if !constant.Compare(constant.ToInt(got), token.EQL, want) {
+				return false
+			}
+		}
+	}
+	return true
 }
